@@ -31,6 +31,7 @@ type cwStep struct {
 var crashWorkloads = map[string][]cwStep{
 	"W1": {{Kind: "init"}, {Kind: "create", ID: "c", N: 3, K: "kc"}, {Kind: "update", ID: "a", N: 11, K: "kz"}, {Kind: "delete", ID: "b"}, {Kind: "init"}, {Kind: "close"}},
 	"W2": {{Kind: "init"}, {Kind: "delete", ID: "a"}, {Kind: "reopen"}, {Kind: "init"}, {Kind: "update", ID: "b", N: 22, K: "kb2"}, {Kind: "close"}},
+	"W4": {{Kind: "create", ID: "a", N: 7, K: "k7"}, {Kind: "create", ID: "b", N: 8, K: ""}, {Kind: "init"}, {Kind: "delete", ID: "a"}, {Kind: "reopen"}, {Kind: "init"}, {Kind: "close"}},
 	"W3": {{Kind: "create", ID: "z", N: 9, K: "kz"}, {Kind: "init"}, {Kind: "delete", ID: "z"}, {Kind: "create", ID: "a", N: 5, K: "k5"}, {Kind: "reopen"}, {Kind: "init"}, {Kind: "create", ID: "c", N: 3, K: ""}, {Kind: "close"}},
 }
 
@@ -572,7 +573,7 @@ func cwJudge(imgDir, wl, prefix string, acked int, ackResults []string, emit fun
 
 func init() {
 	seqChecks["c12"] = &seqCheck{run: runC12, replay: nil,
-		rule: "workloads W1-W3 x prefix {set, empty} x {plain store, store with QueryStore} recorded once each under strace; every prefix of the recorded file-operation log (a process kill between two syscalls) and, for every write, torn images cut at 1, n/2, n-1 (quick) / every byte (thorough), each reopened with the real BadgerDB and judged against the acknowledgements that precede the crash point; distinct = images whose recovered content differs"}
+		rule: "workloads W1-W4 x prefix {set, empty} x {plain store, store with QueryStore} recorded once each under strace; every prefix of the recorded file-operation log (a process kill between two syscalls) and, for every write, torn images cut at 1, n/2, n-1 (quick) / every byte (thorough), each reopened with the real BadgerDB and judged against the acknowledgements that precede the crash point; distinct = images whose recovered content differs"}
 }
 
 func runC12(c *seqCtx) {
@@ -592,7 +593,7 @@ func runC12(c *seqCtx) {
 	self, _ := os.Executable()
 	distinct := map[string]bool{}
 	n := 0
-	for _, wl := range []string{"W1", "W2", "W3"} {
+	for _, wl := range []string{"W1", "W2", "W3", "W4"} {
 		for _, prefix := range []string{"p", ""} {
 			for _, index := range []bool{false, true} {
 				n++
